@@ -88,6 +88,7 @@ func genChallenge(r *core.Rand) string {
 
 func genC16one(tier string, r *core.Rand) C16Plan {
 	pp := genC05(tier, r)
+	pp.Peer.Late = 0 // held mail is C05's arm
 	pp.LibMaster = false
 	pp.Peer.Prompt = core.Choice(r, []string{"CMS>", ">", "Halifax CMS >"})
 	pp.Peer.Motd = nil
